@@ -237,7 +237,16 @@ def run_stages(cfg):
         if i % 2 == 0:
             counts[m] = 10
             counts[Mutation(m.pos, "_")] = 10
-    cov = stagelib.concrete_coverage(gene, prof, counts)
+    # realigned-indel table: one catalogued indel well supported, the others at a
+    # fraction the threshold filters reject
+    indels = {}
+    for i, (pos, op) in enumerate(sorted(k for k in gene.mutations
+                                         if k[1][:3] in ("ins", "del"))):
+        indels[pos, op] = (10, 10) if i == 0 else (18, 2)
+    covd = collections.defaultdict(dict)
+    for m, c in counts.items():
+        covd[m.pos][m.op] = [(60, 60)] * c
+    cov = Coverage(gene, prof, None, covd, indels, {})
     c0 = cov_digest(cov)
     cn_sol = CNSolution(gene, 0, ["1", "1"])
     out = {}
